@@ -216,8 +216,10 @@ def build(tier="quick", seed=0):
             segs = []
             for r in recs:
                 segs += frame_of(it, pk, r)
-            fp, rd = reader_at_loop_head(it, st, segs, registry(D, Do))
-            fp.eof_raises = EOFError("Compressed file ended before the end-of-stream marker was reached")
+            fp = AbsFile(it, [HEADER_FRAME] + segs)
+            fp.eof_raises = EOFError("Compressed file ended before the end-of-stream marker was reached")  # (known to whatever the reader's constructor puts in front of the file)
+            rd = it.call(st.g["RecordStreamReader"], [fp], {})
+            rd.attrs["packer"].attrs["descriptors"] = registry(D, Do)
             out, end = run_iter(rd)
             return len(out), end if isinstance(end, str) else end[:2]
         return th
@@ -289,6 +291,32 @@ def build(tier="quick", seed=0):
         name = f"C04.iter[two equal record frames, the file ends {cut_back} byte(s) before the end of the second]"
         pack.add(Obligation(name, lambda tier, name=name, cut_back=cut_back: prove_paths(name, th_equal_frames_cut(cut_back), lambda p: (p.value[0] == 1, f"yielded {p.value[0]} record(s), ended {p.value[1]}: exactly the one completely written record may be yielded")),
                             replay=lambda w, cut_back=cut_back: {"call": "c04_equal_frames_cut", "args": {"cut_back": cut_back}}, functions=FU, mode="whole loop, concrete frames"))
+
+    def th_eof_codec_path(nrecords, how):
+        # the same through the path-based entry points: a .gz file on disk without end-of-stream marker, named by path / handed over as a file object
+        def th():
+            from pyvc.models.ext import MagicSeg
+
+            D = it.call(RD, ["c04/rec", list(FIELDS)], {})
+            fpw = AbsFile(it, mode="wb")
+            w = it.call(st.g["RecordStreamWriter"], [fpw], {})
+            it.call(it.getattr_(w, "flush"), [], {})
+            for i in range(nrecords):
+                it.call(it.getattr_(w, "write"), [it.call(D, [], {"n": SInt(x + i), "s": "v"})], {})
+            f = AbsFile(it, [MagicSeg("gzip")] + fpw.content(), name="/abs/c04.records.gz", mode="rb")
+            f.codec_truncated = True
+            it.vfs, it.vfs_auto = {"/abs/c04.records.gz": f}, False
+            base_ = L.import_module("flow.record.base")
+            rd = it.call(base_.g["RecordReader"], ["/abs/c04.records.gz"], {}) if how == "path" else it.call(base_.g["RecordReader"], [], {"fileobj": it.m_open(it, "/abs/c04.records.gz", "rb")})
+            out, end = drain(it, it.iterate(rd))
+            return len(out), end if isinstance(end, str) else end[:2]
+        return th
+
+    for how in ("path", "file object"):
+        for k in (0, 2):
+            name = f"C04.path[a .gz file with {k} flushed record(s) and no end-of-stream marker, read by {how}]"
+            pack.add(Obligation(name, lambda tier, name=name, k=k, how=how: prove_paths(name, th_eof_codec_path(k, how), lambda p, k=k: (p.value == (k, "stop"), f"yielded {p.value[0]}, ended {p.value[1]} (must yield the {k} flushed record(s) and end without error)"),
+                                lambda m_, p: {}, allow_raise=("UnicodeEncodeError", "error")), replay=lambda w, k=k: {"call": "c04_gz_flushpoint", "args": {"records": k, "by_path": True}}, functions=FU + ("flow.record.base:open_path", "flow.record.base:open_stream"), mode="path-based entry, codec contract"))
 
     def th_symtail():
         D, Do = two_descs()
